@@ -341,7 +341,10 @@ def run(ctx):
         for st in parts.values():
             if "own-signalled" in st.may and "descended" not in st.must:
                 badr.append(gk.loc(node) if node is not None else kind)
-    ctx.check(bool(chq) and not badr, "subtree-killed-as-a-unit:always-descends", "must_follow", badr[0] if badr else gk.loc(),
+    if not chq:
+        ctx.broken("subtree-killed-as-a-unit:always-descends", "anchor", gk.loc(), "getAndTryToKillPids no longer asks for target.children() itself (moved into a helper?): the descent cannot be followed")
+    else:
+      ctx.check(bool(chq) and not badr, "subtree-killed-as-a-unit:always-descends", "must_follow", badr[0] if badr else gk.loc(),
               "after the victim's own processes the kill always continues into its children",
               "getAndTryToKillPids can return (%s) after signalling the cgroup's own processes without looking at its children: a memory.oom.group "
               "cgroup whose processes live in child cgroups is not killed as a unit (and, with nothing signalled, oomd falls back to a worse-ranked "
